@@ -121,6 +121,7 @@ def _mi_prepare(e, firsts=("MNamed", "MBodied", "MFunc", "MEmpty")):
         R(F, {}, name_kid=None, body=(R(E_, name_kid=L()), R(F, name_kid=L(), body=(L(),)))),
         R("VMany", items=(R(f"MNamed{tag}", name_kid=L()), R(F, name_kid=L(), body=(L(),)), R(O, name_kid=L()))),
         R(E_, {"label": 2}, name_kid=R(f"MBodied{tag}", body=(L(), L()))),
+        R(f"MRich{tag}", {"label": 3}, extras=(L(),), note_kid=L(), name_kid=L()),
     ]
     if first == "MNamed":
         # annotation styles (quoted and evaluated interleaved; a plain base annotating later names):
